@@ -7,12 +7,12 @@ for h in d['harnesses']:
         if a['Violated'] or a['Unknown']: print('   !',l,a['OK'],a['Violated'],a['Unknown'])
     print('  reach',h['reach'])
     seen=set()
-    for v in h['violations']:
-        k=(v['label'],tuple(v['classes']),v.get('known',''))
+    for v in (h['violations'] or []):
+        k=(v['label'],tuple(v['classes'] or []),v.get('known',''))
         if k in seen: continue
         seen.add(k)
         print('  V',v['label'],v['classes'],'known='+v.get('known',''),v.get('msg','')[:200],v['model'])
-    print('  nviol',len(h['violations']))
+    print('  nviol',len(h['violations'] or []))
     if '-v' in sys.argv:
         print('  fns',[(f['name'].split('cache.')[-1],f['touched'],f['blocks']) for f in h['functions']])
         print('  stubs',h['stubs'])
